@@ -23,6 +23,7 @@ import (
 	"context"
 	"encoding/json"
 	"errors"
+	"strings"
 
 	"github.com/google/uuid"
 	"google.golang.org/grpc/codes"
@@ -57,8 +58,9 @@ func (s *publisherServer) ListTopics(
 
 	var resp *pubsubpb.ListTopicsResponse
 	err := s.client.DoTx(ctx, nil, func(tx *ent.Tx) error {
+		prefix := projectTopicPrefix(req.Project)
 		predicates := []predicate.Topic{
-			topic.NameHasPrefix(projectTopicPrefix(req.Project)),
+			topic.NameHasPrefix(prefix),
 			topic.DeletedAtIsNil(),
 		}
 		if req.PageToken != "" {
@@ -76,9 +78,13 @@ func (s *publisherServer) ListTopics(
 		if err != nil {
 			return grpc.AsStatusError(err)
 		}
-		grpcTopics := make([]*pubsubpb.Topic, len(topics))
-		for i, t := range topics {
-			grpcTopics[i] = entTopicToGrpc(t)
+		grpcTopics := make([]*pubsubpb.Topic, 0, len(topics))
+		for _, t := range topics {
+			// the SQL prefix match is case-insensitive on some backends (SQLite's
+			// LIKE), the project has to match exactly
+			if strings.HasPrefix(t.Name, prefix) {
+				grpcTopics = append(grpcTopics, entTopicToGrpc(t))
+			}
 		}
 		var nextPageToken string
 		if len(topics) >= int(pageSize) {
